@@ -159,6 +159,10 @@ def patterns(old, new, ign, old_ign=None):
             out.add("rename-from-ignored")
         if not ignored(ign, o[i]) and dirname(n[i]) and ignored(ign, dirname(n[i])):
             out.add("rename-into-ignored-dir")
+        # ... or the ignored new path is still occupied on the remote by an ignored entry (whose own removal /
+        # rename was skipped because it is ignored)
+        if not ignored(ign, o[i]) and ignored(ign, n[i]) and n[i] in old_paths:
+            out.add("rename-onto-ignored-leftover")
     for i in d["removed"]:
         if old[i][1] == "d" and any(is_prefix(o[j], old[i][0]) for j in ren):
             out.add("removed-dir-under-rename")
@@ -636,7 +640,8 @@ FINDINGS = {
     "C43-rename-loses-change": {"rename+kind", "rename+retarget", "rename+exec"},
     "C43-incremental-symlink": {"symlink-subdir", "symlink-modified"},
     "C43-full-keeps-stale": {"full-stale", "full-symlink-over-file"},
-    "C43-ignore-boundary": {"rename-from-ignored", "rename-into-ignored-dir", "unignored", "ignored-under-removed-dir"},
+    "C43-ignore-boundary": {"rename-from-ignored", "rename-into-ignored-dir", "rename-onto-ignored-leftover", "unignored",
+                            "ignored-under-removed-dir"},
 }
 
 
